@@ -50,7 +50,8 @@ ASSUMPTIONS = ["the first TCP segment carries at least the three bytes the proxy
                "random parts of real hellos (client random, key share) differ between runs; only abstract fields are logged"]
 EXPECTED_PROBES = ["hook_equal_real", "hook_equal_synth", "multi_record", "multi_segment", "rejected_invalid",
                    "incomplete_then_eof", "handshake_completed", "nonconformant_sni", "direct_valueerror", "direct_none",
-                   "direct_hello", "dtls_equal", "split_compared", "hello_over_16k"]
+                   "direct_hello", "dtls_equal", "split_compared", "hello_over_16k", "slow_next_layer_hook",
+                   "fin_queued_behind_next_layer_hook"]
 
 HOST = "o.test"
 ORIGIN_IP = "93.184.216.34"
@@ -252,6 +253,14 @@ def generate(rng, tier):
           "conns": [_conn(r, True) for _ in range(nconn)],
           "noise": [_noise(r).decode("latin-1") for _ in range(r.choice([0, 1, 2, 4]))],
           "dtls_ops": [{"k": "trunc", "at": round(r.random(), 5)}] if r.random() < 0.2 else []}
+    # Delivery schedule "FIN queued behind a slow next_layer hook": the hook that sees the first TLS bytes of one
+    # connection is slow (async addon); the client sends the rest of its flight and, usually, half-closes before the
+    # hook returns, so the remaining segments and the close are queued and ClientTLSLayer starts on a connection
+    # that is already half-closed.  (Own rng site: scenarios without it keep their shape.)
+    r2 = rng.at("c13-slowhook")
+    if r2.random() < 0.25:
+        sc["conns"][r2.randrange(len(sc["conns"]))]["slow_next_layer"] = {
+            "latency": r2.choice([0.5, 1.0, 3.0]), "early_fin": r2.random() < 0.8}
     return sc
 
 
@@ -426,6 +435,20 @@ def _execute(sc):
             elif name == "client_disconnected":
                 disconnected.add(data.peername[1])
         w.hook_listeners.append(on_hook)
+        slow_ports = {50100 + i: cs["slow_next_layer"] for i, cs in enumerate(sc["conns"]) if cs.get("slow_next_layer")}
+        slowed = set()
+
+        def policy(name, data):
+            # an async addon that takes its time in the next_layer hook which first sees the TLS bytes
+            if name == "next_layer" and slow_ports:
+                port = data.context.client.peername[1]
+                if port in slow_ports and port not in slowed and data.data_client()[:1] == b"\x16":
+                    slowed.add(port)
+                    probe("slow_next_layer_hook")
+                    return asyncio.sleep(slow_ports[port]["latency"])
+            return None
+        w.policy = policy
+
         def planner(host, port, n, proto):
             def accept(conn):
                 async def origin():      # an origin that says nothing and closes when the proxy does
@@ -487,7 +510,15 @@ def _execute(sc):
             await c.send(wire, cuts=tcuts, gaps=cs["gaps"])
             res["sent"] = True
             pristine = e is not None and not sc["hs_ops"] and not cs["wire_ops"]
-            if pristine:
+            slow = cs.get("slow_next_layer")
+            if slow and slow.get("early_fin"):
+                # half-close right behind the flight, while the slow next_layer hook is still pending
+                if res["port"] in slowed and w.pending_hooks > 0:
+                    probe("fin_queued_behind_next_layer_hook")
+                    res["fin_behind_hook"] = True
+                c.send_eof()
+                await asyncio.sleep(slow["latency"] + 1.0)
+            elif pristine:
                 ok = await e.handshake(timeout=10.0)
                 res["completed"] = ok
                 if ok:
@@ -602,7 +633,7 @@ def _execute(sc):
                 refkey = None
             if refkey is not None:
                 outcomes.append((res["i"], abstract, refkey))
-        log.append((res["i"], state, abstract, tuple(end), res["closed"], res["completed"]))
+        log.append((res["i"], state, abstract, tuple(end), res["closed"], res["completed"], bool(res.get("fin_behind_hook"))))
     groups: dict = {}
     for o in outcomes:
         groups.setdefault(o[2], []).append(o)
